@@ -43,6 +43,8 @@ type selfValResult struct {
 var outOfReach = map[string]string{
 	"C16-a": "numeric: round-to-nearest instead of ceiling in average()",
 	"C19-b": "string language: a hand-written parser that accepts signed collection ids",
+	"C19-o": "string language: the same parser rewrite (signed ids / shard indexes accepted)",
+	"C16-o": "numeric: average() adds one also for exact multiples",
 }
 
 func patchFiles(patch string) []string {
